@@ -677,3 +677,99 @@ theorem wauth_push_without_keys_silent (pols : List Res) (wn : List String) :
   simp [pushDelta, wauthOut, wauthOutG, GenOut.nilOut]
 
 end IstioModel.C03
+
+/-! ## Review round 3: no response names a resource in both lists (see `applyDelta_order_irrelevant`) -/
+namespace IstioModel.C03
+open IstioModel.C04
+
+theorem toSend_names_in_idx (retained : List (String × Nat)) (idx : Index) (addrs : List String) (n : String)
+    (h : n ∈ names (toSend retained (foundOf idx addrs))) : ∃ x ∈ idx, x.name = n := by
+  obtain ⟨y, hy, hyn⟩ := List.mem_map.mp (toSend_names_subset retained _ n h)
+  exact ⟨y, (List.mem_filter.mp hy).1, hyn⟩
+
+theorem missingOf_not_entry (idx : Index) (A : List String) (n : String) (hm : n ∈ missingOf idx A)
+    (x : Wl) (hx : x ∈ idx) (hxn : x.name = n) : False := by
+  have hlook : x ∈ idx.lookup n := List.mem_filter.mpr ⟨hx, by simp [hxn]⟩
+  have := (List.mem_filter.mp hm).2
+  simp only [List.isEmpty_iff] at this
+  rw [this] at hlook
+  cases hlook
+
+/-- The wildcard path: a removed name is not the name of an entry of the index. -/
+theorem wildcardOut_removed_not_entry (idx : Index) (r : WReq) (n : String)
+    (hd : n ∈ (wildcardOut idx r).out.deleted) (x : Wl) (hx : x ∈ idx) (hxn : x.name = n) : False := by
+  simp only [wildcardOut] at hd
+  cases hreq : r.isReq with
+  | true =>
+    simp only [hreq, if_true, List.isEmpty_nil, union, List.filter_nil, List.append_nil, mem_diff] at hd
+    exact hd.2 (List.mem_map.mpr ⟨x, hx, hxn⟩)
+  | false =>
+    simp only [hreq, Bool.false_eq_true, if_false] at hd
+    cases he : r.updated.isEmpty with
+    | true => simp [he] at hd
+    | false =>
+      simp only [he, Bool.false_eq_true, if_false] at hd
+      exact missingOf_not_entry idx _ n hd x hx hxn
+
+theorem wildcardOut_res_entry (idx : Index) (r : WReq) (n : String)
+    (hn : n ∈ names (wildcardOut idx r).out.res) : ∃ x ∈ idx, x.name = n := by
+  simp only [wildcardOut] at hn
+  obtain ⟨y, hy, hyn⟩ := List.mem_map.mp (toSend_names_subset _ _ n hn)
+  refine ⟨y, ?_, hyn⟩
+  repeat' split at hy
+  all_goals first
+    | exact hy
+    | exact (List.mem_filter.mp hy).1
+
+/-- The real Workload generator (either type, request or push, wildcard or on-demand): a removed name is never the
+    name of a resource in the same answer. -/
+theorem wds_removed_disjoint (t : Ty) (idx : Index) (w : WR) (r : WReq) :
+    ∀ n ∈ names (wdsGenerateT t idx w r).out.res, n ∉ (wdsGenerateT t idx w r).out.deleted := by
+  intro n hn hd
+  -- the Workload type only drops resources; removed names are the same
+  have hd' : n ∈ (wdsGenerate idx w r).out.deleted := by
+    have := (wl_type_same_bookkeeping idx w r).2.1
+    by_cases ht : t = .wl
+    · subst ht; rw [← this]; exact hd
+    · simpa [wdsGenerateT, ht] using hd
+  have hn' : n ∈ names (wdsGenerate idx w r).out.res := by
+    by_cases ht : t = .wl
+    · subst ht
+      simp only [wdsGenerateT, if_true, names, List.mem_map, List.mem_filter] at hn
+      obtain ⟨x, ⟨hx, _⟩, e⟩ := hn
+      exact List.mem_map.mpr ⟨x, hx, e⟩
+    · simpa [wdsGenerateT, ht] using hn
+  unfold wdsGenerate wdsGenerateG at hn' hd'
+  by_cases h1 : (!r.isReq && r.updated.isEmpty) = true
+  · simp [h1, names] at hn'
+  · simp only [h1, if_false] at hn' hd'
+    cases hw : w.wildcard with
+    | true =>
+      simp only [hw, if_true] at hn' hd'
+      obtain ⟨x, hx, hxn⟩ := wildcardOut_res_entry idx r n hn'
+      exact wildcardOut_removed_not_entry idx r n hd' x hx hxn
+    | false =>
+      simp only [hw, Bool.false_eq_true, if_false] at hn' hd'
+      cases he : (ondemandAddresses idx w r).isEmpty
+      · rw [ondemandOut_nonempty true idx w r he] at hn' hd'
+        obtain ⟨x, hx, hxn⟩ := toSend_names_in_idx _ idx _ n hn'
+        exact missingOf_not_entry idx _ n (List.mem_filter.mp hd').1 x hx hxn
+      · rw [ondemandOut_empty true idx w r he] at hn'
+        split at hn' <;> simp [names] at hn'
+
+/-- The Authorization generator: removed = expected - found. -/
+theorem wauth_removed_disjoint (pols : List Res) (forced : Bool) (updated wn : List String) :
+    ∀ n ∈ names (wauthOut pols forced updated wn).res, n ∉ (wauthOut pols forced updated wn).deleted := by
+  intro n hn hd
+  cases forced with
+  | true =>
+    simp only [wauthOut, wauthOutG, if_true] at hn hd
+    exact (mem_diff.mp hd).2 hn
+  | false =>
+    cases he : updated.isEmpty with
+    | true => simp [wauthOut, wauthOutG, he, names] at hn
+    | false =>
+      simp only [wauthOut, wauthOutG, he, Bool.false_eq_true, if_false] at hn hd
+      exact (mem_diff.mp hd).2 hn
+
+end IstioModel.C03
